@@ -876,6 +876,10 @@ class CholeskySampler(object):
             dist = numpy.random.randn
         self.dist = dist
 
+        # use the converted arrays: the inputs can be sequences
+        mean = self.mean
+        cov = self.cov
+
         npar = mean.size
         n1, n2 = cov.shape[0: 0 + 2]
         if npar != cov.shape[0] or npar != cov.shape[1]:
